@@ -10,12 +10,12 @@ Part 1: `clean` for EVERY string: idempotent; its result has no ".", no empty se
 Part 2: Join against an absolute cleaned base, for EVERY name: the result is inside the base iff the name's segment
         walk never climbs above its start (`depthOK`).
 Part 3: per builder, for EVERY client value that passes the builder's validation as coded: the built path is inside the
-        data dir.  This is TRUE for the builders whose value arrives as a router path parameter or is replaced server
-        side (lookupGet, lookupDelete, mappingFile, dashboardDetails, scrollResults) and FALSE for the seven builders
-        that apply no validation to a value taken from a request body / form / query text
-        (lookupUpload, inputlookup, aliasFile, baseSegDir, baseVTableDir, suffixFile, tagsTreeFile): for each of those the
-        full statement is kept, refuted by `…_counterexample` (minimal witness), and proved under the explicit guard
-        `noSlash v` (`…_partial`) — the guard is exactly what the proposed fix would enforce.  See known_findings.txt.
+        data dir — `confined_<builder>`, at full strength, for all twelve builders.
+        Seven of them (lookupUpload, inputlookup, aliasFile, baseSegDir, baseVTableDir, suffixFile, tagsTreeFile) applied
+        no validation to a value taken from a request body / form / query text before the `fix:` commits listed in
+        known_findings.txt; their former definitions are kept as `…Old`, each with the theorem `…Old_counterexample`
+        (the full statement was FALSE, minimal witness) and `…Old_partial` (true for values without a path separator),
+        which is what the new theorems rest on: the validator now coded (`simpleName`) implies that guard.
 
 NOT proved: that this list of builders is complete (a listing aid, not a theorem); symlinks (the model is lexical).
 -/
@@ -138,7 +138,8 @@ theorem confined_mappingFile (d : List Seg) (H : Seg) (hs : Setup d H) (v : Str)
     (h : mappingFile d H v = some p) : within (dataDir d) p := by
   unfold mappingFile at h
   split at h
-  · rename_i hr
+  · rename_i hr0
+    have hr := hr0.1
     simp at h; subst h
     have hH := hs.2
     exact Lemmas.C19.confined_core d hs.1 ["ingestnodes".toList, H, "vtabledata".toList, "mappings".toList] [] (v ++ ".json".toList)
@@ -186,7 +187,7 @@ example : lookupGet [['d']] "a.csv".toList = some ⟨true, [['d'], "lookups".toL
 example : lookupGet [['d']] "../a.csv".toList = none := by decide
 example : lookupGet [['d']] "..".toList = some ⟨true, [['d']]⟩ := by decide
 
-/-! ### builders without validation: full statement, counterexample, partial theorem -/
+/-! ### builders repaired by the fix: commits — the old definitions -/
 
 /-- the full statement for a builder that takes only the data dir -/
 def ConfinedD (build : List Seg → Str → Option NPath) : Prop :=
@@ -196,44 +197,47 @@ def ConfinedD (build : List Seg → Str → Option NPath) : Prop :=
 def ConfinedDH (build : List Seg → Seg → Str → Option NPath) : Prop :=
   ∀ (d : List Seg) (H : Seg) (v : Str) (p : NPath), Setup d H → build d H v = some p → within (dataDir d) p
 
-/-- lookupUpload (POST /api/lookup-upload, form value `name`): the full statement is FALSE; `../../x.csv` lands beside the data dir. -/
-theorem lookupUpload_counterexample : ¬ ConfinedD lookupUpload := by
+/-- what the validator now coded (utils.IsSimpleFileName) gives -/
+theorem simpleName_guard {v : Str} (h : simpleName v = true) : Guard v := by
+  unfold simpleName at h
+  simp at h
+  exact h.2.2.2.1
+
+/-- lookupUpload BEFORE the fix (form value `name` joined unchecked): the full statement was FALSE; `../../x.csv` landed beside the data dir. -/
+theorem lookupUploadOld_counterexample : ¬ ConfinedD lookupUploadOld := by
   intro h
   exact absurd (h [['d']] ['H'] "../../x.csv".toList ⟨true, ["x.csv".toList]⟩ setup_example (by decide)) (by decide)
 
-/-- lookupUpload, for every name without a path separator. -/
-theorem lookupUpload_partial (d : List Seg) (H : Seg) (hs : Setup d H) (v : Str) (hg : Guard v) (p : NPath)
-    (h : lookupUpload d v = some p) : within (dataDir d) p := by
-  unfold lookupUpload at h
+theorem lookupUploadOld_partial (d : List Seg) (H : Seg) (hs : Setup d H) (v : Str) (hg : Guard v) (p : NPath)
+    (h : lookupUploadOld d v = some p) : within (dataDir d) p := by
+  unfold lookupUploadOld at h
   split at h
   · simp at h
   · simp at h; subst h
     exact Lemmas.C19.confined_core d hs.1 ["lookups".toList, []] [] (uploadName v) (Lemmas.C19.uploadName_noSlash hg)
       (by decide) (by simp) 0 (by decide)
 
-/-- inputlookup (`| inputlookup "<file>"`): the full statement is FALSE although the extension is checked. -/
-theorem inputlookup_counterexample : ¬ ConfinedD inputlookup := by
+/-- inputlookup BEFORE the fix (extension check only): the full statement was FALSE. -/
+theorem inputlookupOld_counterexample : ¬ ConfinedD inputlookupOld := by
   intro h
   exact absurd (h [['d']] ['H'] "../../x.csv".toList ⟨true, ["x.csv".toList]⟩ setup_example (by decide)) (by decide)
 
-theorem inputlookup_partial (d : List Seg) (H : Seg) (hs : Setup d H) (v : Str) (hg : Guard v) (p : NPath)
-    (h : inputlookup d v = some p) : within (dataDir d) p := by
-  unfold inputlookup at h
+theorem inputlookupOld_partial (d : List Seg) (H : Seg) (hs : Setup d H) (v : Str) (hg : Guard v) (p : NPath)
+    (h : inputlookupOld d v = some p) : within (dataDir d) p := by
+  unfold inputlookupOld at h
   split at h
   · simp at h; subst h
     exact Lemmas.C19.confined_core d hs.1 ["lookups".toList, []] [] v hg (by decide) (by simp) 0 (by decide)
   · simp at h
 
-/-- aliasFile (POST /_aliases, `index` of an add/remove action): the full statement is FALSE. -/
-theorem aliasFile_counterexample : ¬ ConfinedDH aliasFile := by
+/-- aliasFile BEFORE the fix (POST /_aliases `index`, only checked for non-emptiness): the full statement was FALSE. -/
+theorem aliasFileOld_counterexample : ¬ ConfinedDH aliasFileOld := by
   intro h
   exact absurd (h [['d']] ['H'] "../../../../../x".toList ⟨true, ["x.json".toList]⟩ setup_example (by decide)) (by decide)
 
-/-- aliasFile for every index name without a path separator (this is also the route-parameter case
-    PUT /{indexName}/_alias/{aliasName}). -/
-theorem aliasFile_partial (d : List Seg) (H : Seg) (hs : Setup d H) (v : Str) (hg : Guard v) (p : NPath)
-    (h : aliasFile d H v = some p) : within (dataDir d) p := by
-  unfold aliasFile at h
+theorem aliasFileOld_partial (d : List Seg) (H : Seg) (hs : Setup d H) (v : Str) (hg : Guard v) (p : NPath)
+    (h : aliasFileOld d H v = some p) : within (dataDir d) p := by
+  unfold aliasFileOld at h
   split at h
   · simp at h
   · simp at h; subst h
@@ -244,14 +248,14 @@ theorem aliasFile_partial (d : List Seg) (H : Seg) (hs : Setup d H) (v : Str) (h
       (by simp) 3
       (by rw [Lemmas.C19.walk_plain (by decide), Lemmas.C19.walk_plain hH, Lemmas.C19.walk_plain (by decide), Lemmas.C19.walk_plain (by decide)]; rfl)
 
-/-- baseSegDir (index name = `_index` of a bulk action): the full statement is FALSE. -/
-theorem baseSegDir_counterexample : ¬ ConfinedDH baseSegDir := by
+/-- baseSegDir BEFORE the fix (index name = `_index` of a bulk action, unchecked): the full statement was FALSE. -/
+theorem baseSegDirOld_counterexample : ¬ ConfinedDH baseSegDirOld := by
   intro h
   exact absurd (h [['d']] ['H'] "../../../x".toList ⟨true, [['x'], SID, ['0']]⟩ setup_example (by decide)) (by decide)
 
-theorem baseSegDir_partial (d : List Seg) (H : Seg) (hs : Setup d H) (v : Str) (hg : Guard v) (p : NPath)
-    (h : baseSegDir d H v = some p) : within (dataDir d) p := by
-  unfold baseSegDir at h
+theorem baseSegDirOld_partial (d : List Seg) (H : Seg) (hs : Setup d H) (v : Str) (hg : Guard v) (p : NPath)
+    (h : baseSegDirOld d H v = some p) : within (dataDir d) p := by
+  unfold baseSegDirOld at h
   simp at h; subst h
   have hH := hs.2
   exact Lemmas.C19.confined_core d hs.1 [H, "final".toList] [SID, ['0'], []] v hg
@@ -259,14 +263,14 @@ theorem baseSegDir_partial (d : List Seg) (H : Seg) (hs : Setup d H) (v : Str) (
     (by decide) 1
     (by rw [Lemmas.C19.walk_plain hH, Lemmas.C19.walk_plain (by decide)]; rfl)
 
-/-- baseVTableDir: the full statement is FALSE. -/
-theorem baseVTableDir_counterexample : ¬ ConfinedDH baseVTableDir := by
+/-- baseVTableDir BEFORE the fix: the full statement was FALSE. -/
+theorem baseVTableDirOld_counterexample : ¬ ConfinedDH baseVTableDirOld := by
   intro h
   exact absurd (h [['d']] ['H'] "../../../x".toList ⟨true, [['x'], SID]⟩ setup_example (by decide)) (by decide)
 
-theorem baseVTableDir_partial (d : List Seg) (H : Seg) (hs : Setup d H) (v : Str) (hg : Guard v) (p : NPath)
-    (h : baseVTableDir d H v = some p) : within (dataDir d) p := by
-  unfold baseVTableDir at h
+theorem baseVTableDirOld_partial (d : List Seg) (H : Seg) (hs : Setup d H) (v : Str) (hg : Guard v) (p : NPath)
+    (h : baseVTableDirOld d H v = some p) : within (dataDir d) p := by
+  unfold baseVTableDirOld at h
   simp at h; subst h
   have hH := hs.2
   exact Lemmas.C19.confined_core d hs.1 [[], H, "final".toList] [SID] v hg
@@ -274,14 +278,14 @@ theorem baseVTableDir_partial (d : List Seg) (H : Seg) (hs : Setup d H) (v : Str
     (by decide) 1
     (by rw [Lemmas.C19.walk_skip (Or.inl rfl), Lemmas.C19.walk_plain hH, Lemmas.C19.walk_plain (by decide)]; rfl)
 
-/-- suffixFile: the full statement is FALSE. -/
-theorem suffixFile_counterexample : ¬ ConfinedDH suffixFile := by
+/-- suffixFile BEFORE the fix: the full statement was FALSE. -/
+theorem suffixFileOld_counterexample : ¬ ConfinedDH suffixFileOld := by
   intro h
   exact absurd (h [['d']] ['H'] "../../../x".toList ⟨true, [['x'], "0-0-7.suffix".toList]⟩ setup_example (by decide)) (by decide)
 
-theorem suffixFile_partial (d : List Seg) (H : Seg) (hs : Setup d H) (v : Str) (hg : Guard v) (p : NPath)
-    (h : suffixFile d H v = some p) : within (dataDir d) p := by
-  unfold suffixFile at h
+theorem suffixFileOld_partial (d : List Seg) (H : Seg) (hs : Setup d H) (v : Str) (hg : Guard v) (p : NPath)
+    (h : suffixFileOld d H v = some p) : within (dataDir d) p := by
+  unfold suffixFileOld at h
   simp at h; subst h
   have hH := hs.2
   exact Lemmas.C19.confined_core d hs.1 [H, "suffix".toList] [SID ++ ".suffix".toList] v hg
@@ -289,14 +293,14 @@ theorem suffixFile_partial (d : List Seg) (H : Seg) (hs : Setup d H) (v : Str) (
     (by decide) 1
     (by rw [Lemmas.C19.walk_plain hH, Lemmas.C19.walk_plain (by decide)]; rfl)
 
-/-- tagsTreeFile (tag key of an ingested datapoint): the full statement is FALSE. -/
-theorem tagsTreeFile_counterexample : ¬ ConfinedDH tagsTreeFile := by
+/-- tagsTreeFile BEFORE the fix (tag key of an ingested datapoint, unchecked): the full statement was FALSE. -/
+theorem tagsTreeFileOld_counterexample : ¬ ConfinedDH tagsTreeFileOld := by
   intro h
   exact absurd (h [['d']] ['H'] "../../../../../../x".toList ⟨true, [['x']]⟩ setup_example (by decide)) (by decide)
 
-theorem tagsTreeFile_partial (d : List Seg) (H : Seg) (hs : Setup d H) (v : Str) (hg : Guard v) (p : NPath)
-    (h : tagsTreeFile d H v = some p) : within (dataDir d) p := by
-  unfold tagsTreeFile at h
+theorem tagsTreeFileOld_partial (d : List Seg) (H : Seg) (hs : Setup d H) (v : Str) (hg : Guard v) (p : NPath)
+    (h : tagsTreeFileOld d H v = some p) : within (dataDir d) p := by
+  unfold tagsTreeFileOld at h
   simp at h; subst h
   have hH := hs.2
   exact Lemmas.C19.confined_core d hs.1 [H, "final".toList, "tth".toList, MID, ['0']] [] v hg
@@ -304,5 +308,71 @@ theorem tagsTreeFile_partial (d : List Seg) (H : Seg) (hs : Setup d H) (v : Str)
     (by simp) 4
     (by rw [Lemmas.C19.walk_plain hH, Lemmas.C19.walk_plain (by decide), Lemmas.C19.walk_plain (by decide),
           Lemmas.C19.walk_plain (by decide), Lemmas.C19.walk_plain (by decide)]; rfl)
+
+/-! ### the repaired builders, full strength -/
+
+/-- C19.3 lookupUpload (POST /api/lookup-upload, form value `name`): every name the handler accepts is stored inside the data dir. -/
+theorem confined_lookupUpload : ConfinedD lookupUpload := by
+  intro d H v p hs h
+  unfold lookupUpload at h
+  split at h
+  · rename_i hv; exact lookupUploadOld_partial d H hs v (simpleName_guard hv) p h
+  · simp at h
+
+/-- C19.3 inputlookup (`| inputlookup "<file>"`): every file name the command accepts is read from inside the data dir. -/
+theorem confined_inputlookup : ConfinedD inputlookup := by
+  intro d H v p hs h
+  unfold inputlookup at h
+  split at h
+  · rename_i hv; exact inputlookupOld_partial d H hs v (simpleName_guard hv) p h
+  · simp at h
+
+/-- C19.3 aliasFile (POST /_aliases and the alias routes): every index name accepted reads/writes/deletes inside the data dir. -/
+theorem confined_aliasFile : ConfinedDH aliasFile := by
+  intro d H v p hs h
+  unfold aliasFile at h
+  split at h
+  · rename_i hv; exact aliasFileOld_partial d H hs v (simpleName_guard hv) p h
+  · simp at h
+
+/-- C19.3 baseSegDir: every index name accepted at ingest gets its segment directories inside the data dir. -/
+theorem confined_baseSegDir : ConfinedDH baseSegDir := by
+  intro d H v p hs h
+  unfold baseSegDir at h
+  split at h
+  · rename_i hv; exact baseSegDirOld_partial d H hs v (simpleName_guard hv) p h
+  · simp at h
+
+/-- C19.3 baseVTableDir. -/
+theorem confined_baseVTableDir : ConfinedDH baseVTableDir := by
+  intro d H v p hs h
+  unfold baseVTableDir at h
+  split at h
+  · rename_i hv; exact baseVTableDirOld_partial d H hs v (simpleName_guard hv) p h
+  · simp at h
+
+/-- C19.3 suffixFile. -/
+theorem confined_suffixFile : ConfinedDH suffixFile := by
+  intro d H v p hs h
+  unfold suffixFile at h
+  split at h
+  · rename_i hv; exact suffixFileOld_partial d H hs v (simpleName_guard hv) p h
+  · simp at h
+
+/-- C19.3 tagsTreeFile: every tag key of an accepted datapoint names a file inside the data dir. -/
+theorem confined_tagsTreeFile : ConfinedDH tagsTreeFile := by
+  intro d H v p hs h
+  unfold tagsTreeFile at h
+  split at h
+  · rename_i hv; exact tagsTreeFileOld_partial d H hs v (simpleName_guard hv) p h
+  · simp at h
+
+/-- names that are valid today keep working: letters, digits, '-', '_', inner dots, unicode -/
+example : (lookupUpload [['d']] "my-lookup_v1.2.csv".toList).isSome ∧ (baseSegDir [['d']] ['H'] "logs.2024-06".toList).isSome ∧
+    (tagsTreeFile [['d']] ['H'] "host.name".toList).isSome ∧ (aliasFile [['d']] ['H'] "évts".toList).isSome := by decide
+
+/-- and these are refused -/
+example : lookupUpload [['d']] "../../x.csv".toList = none ∧ inputlookup [['d']] "a\\..\\x.csv".toList = none ∧
+    aliasFile [['d']] ['H'] "..".toList = none ∧ baseSegDir [['d']] ['H'] "a/b".toList = none ∧ tagsTreeFile [['d']] ['H'] [] = none := by decide
 
 end SigModel.Props.C19
